@@ -45,7 +45,7 @@ HISTORY_CHECK = True   # last runs of every chunk are re-observed alone in a fre
 
 TIERS = {
     "quick":    {"runs": 3200,   "chunk": 100,  "hash_seeds": [0], "max_steps": 10, "timeout": 900},
-    "thorough": {"runs": 32000, "chunk": 400, "max_wall": 2400, "hash_seeds": [0, 11], "max_steps": 12, "timeout": 3400},
+    "thorough": {"history_check_cap": 200, "runs": 32000, "chunk": 400, "max_wall": 2400, "hash_seeds": [0, 11], "max_steps": 12, "timeout": 3400},
     "selftest": {"runs": 160,    "chunk": 20,   "hash_seeds": [0], "max_steps": 10, "timeout": 300},
 }
 REQUIRED_PROBES = {"quick": ["error_recorded_in_vevent", "non_lenient_container_raised", "delivery_with_warm_cache",
